@@ -285,6 +285,69 @@ Lemma stale_handler_refuted :
   after_samplers [mkreg STERM true; mkreg SINT true; mkreg SALRM true] 2 STERM = Some 0.
 Proof. reflexivity. Qed.
 
+(* ---- resume does not re-seed: nothing is offered twice over a whole history -------------------- *)
+Lemma pools_from_ge : forall h j i p, In p (pools_from false j i h) ->
+  (j < fst p)%nat \/ (j = fst p /\ (i <= snd p)%nat).
+Proof.
+  induction h as [|e r IH]; intros j i p H; cbn [pools_from] in H; [contradiction|].
+  destruct e.
+  - unfold pool_key in H. cbn [andb] in H. destruct H as [<-|H]; [right; cbn; split; [reflexivity|lia]|].
+    destruct (IH j (S i) p H) as [Hlt|(He & Hle)]; [left; exact Hlt|right; split; [exact He|lia]].
+  - destruct (IH (S j) 0%nat p H) as [Hlt|(He & _)]; left; lia.
+Qed.
+
+Lemma pools_nodup : forall h j i, NoDup (pools_from false j i h).
+Proof.
+  induction h as [|e r IH]; intros j i; cbn [pools_from]; [constructor|].
+  destruct e; [|apply IH].
+  unfold pool_key. cbn [andb]. constructor; [|apply IH].
+  intro H. destruct (pools_from_ge r j (S i) (j, i) H) as [Hlt|(_ & Hle)]; cbn in *; lia.
+Qed.
+
+Lemma NoDup_app_intro {A} (a b : list A) :
+  NoDup a -> NoDup b -> (forall x, In x a -> In x b -> False) -> NoDup (a ++ b).
+Proof.
+  induction 1 as [|x a Hx _ IH]; intros Nb Hd; cbn [app]; [exact Nb|].
+  constructor.
+  - intro Hin. apply in_app_or in Hin. destruct Hin as [Hin|Hin]; [contradiction|].
+    exact (Hd x (or_introl eq_refl) Hin).
+  - apply IH; [exact Nb|]. intros y Hy. apply Hd. right. exact Hy.
+Qed.
+
+Lemma flat_map_nodup {K A} (pool : K -> list A) : forall ks,
+  NoDup ks -> (forall k, NoDup (pool k)) ->
+  (forall k k' x, k <> k' -> In x (pool k) -> In x (pool k') -> False) ->
+  NoDup (flat_map pool ks).
+Proof.
+  induction ks as [|k ks IH]; intros N Hp Hd; cbn [flat_map]; [constructor|].
+  inversion N as [|? ? Hk Nk]; subst.
+  apply NoDup_app_intro; [apply Hp|exact (IH Nk Hp Hd)|].
+  intros x Hx Hin. apply in_flat_map in Hin. destruct Hin as (k' & Hk' & Hx').
+  apply (Hd k k' x); try assumption. intro E. subst k'. contradiction.
+Qed.
+
+(* every skeleton of the resume path accepted by the checker (no seeding call) : over ANY history of
+   refills and resumes, with pools that are internally distinct and pairwise disjoint (fresh draws),
+   no point is offered twice - the freshness hypothesis of C01's InvD holds across resumes          *)
+Theorem resume_seed_sound {A} (calls : list seedcall) (pool : nat * nat -> list A) (h : list hev) :
+  resume_seed_ok calls = true ->
+  (forall k, NoDup (pool k)) ->
+  (forall k k' x, k <> k' -> In x (pool k) -> In x (pool k') -> False) ->
+  NoDup (offered pool (reseeds calls) h).
+Proof.
+  unfold resume_seed_ok. intros H Hp Hd. apply negb_true_iff in H. rewrite H.
+  unfold offered. apply flat_map_nodup; [apply pools_nodup|exact Hp|exact Hd].
+Qed.
+
+(* the variant that seeds on resume, refuted: two interruptions, the second refill after a resume
+   is the first one again, and through C01's [run] the live set ends with duplicated points         *)
+Lemma reseed_refuted :
+  resume_seed_ok [SeedConfigure] = false
+  /\ pools_from true 0 0 rs_history = [(0, 0); (1, 0); (1, 0)]%nat
+  /\ rs_live_after true = [20; 20; 21; 21]%Z /\ nodupb (rs_live_after true) = false
+  /\ nodupb (rs_live_after false) = true.
+Proof. vm_compute. repeat split. Qed.
+
 (* ---- the importance sampler refuses mid-iteration checkpoints -------------------------------- *)
 Theorem ins_intact {FS} (write touch : FS -> FS) : forall effs fs,
   ins_ckpt_ok effs = true -> irun write touch effs false fs = fs.
